@@ -201,3 +201,31 @@ def pick_fault(r: Rng, ref_res: dict, kinds: typing.Sequence[str]) -> typing.Opt
             return None
         return {"kind": kind, "at": biased(n)}
     raise ValueError(kind)
+
+
+def sig_kind(path: str) -> str:
+    """A coarse, stable classification of a generated file for signatures: support / namespace / type."""
+    base = os.path.basename(path)
+    if "/support/" in "/" + path or base.startswith("nunavut_support") or path.startswith("nunavut/"):
+        return "support"
+    stem = os.path.splitext(base)[0]
+    if stem in ("_namespace_", "__init__", "index", "_"):
+        return "namespace"
+    return "type"
+
+
+def reduce_dsdl(case: dict) -> typing.Iterator[dict]:
+    files = case["dsdl"]["files"]
+    if len(files) <= 1:
+        return
+    for rel in sorted(files, reverse=True):
+        parts = rel.split("/")
+        fn = parts[-1].split(".")
+        if fn[0].isdigit():
+            fn = fn[1:]
+        ref = ".".join(parts[:-1] + [fn[0]]) + ".%s.%s" % (fn[1], fn[2])
+        if any(ref in txt for other, txt in files.items() if other != rel):
+            continue
+        c = dict(case)
+        c["dsdl"] = {"roots": case["dsdl"]["roots"], "files": {k: v for k, v in files.items() if k != rel}}
+        yield c
